@@ -123,6 +123,23 @@ impl Model {
 
     /// a record of `line` (payload + line ending) is written at virtual time `now`
     pub fn write(&mut self, line: &[u8], now: Option<i64>) {
+        self.before_write(now);
+        if self.rotations() > 0 {
+            self.writes_after_rotation += 1;
+        }
+        let cur = self.chunks.last_mut().unwrap();
+        cur.size_before_last = cur.bytes.len() as u64;
+        cur.last_len = line.len();
+        cur.bytes.extend_from_slice(line);
+    }
+
+    /// a record is about to be written at `now`, but its write fails: the file is opened and the
+    /// rotation decision is taken as for any record, no byte is added and none is accounted
+    pub fn write_failed(&mut self, now: Option<i64>) {
+        self.before_write(now);
+    }
+
+    fn before_write(&mut self, now: Option<i64>) {
         if !self.initialized {
             self.initialize(now);
         }
@@ -162,13 +179,6 @@ impl Model {
                 self.new_chunk(now);
             }
         }
-        if self.rotations() > 0 {
-            self.writes_after_rotation += 1;
-        }
-        let cur = self.chunks.last_mut().unwrap();
-        cur.size_before_last = cur.bytes.len() as u64;
-        cur.last_len = line.len();
-        cur.bytes.extend_from_slice(line);
     }
 
     pub fn rotations(&self) -> u64 {
